@@ -163,6 +163,17 @@ def r2(ctx):
         ctx.inst(R, "remove:connections-by-owner", ok, keyed[0] if keyed else rm.span, "the 4-tuple index is cleaned by the removed fd, not by key" if ok else
                  "SocketTable::remove deletes the 4-tuple index entry by key without checking that it still points at the socket being removed: when a newer connection "
                  "reuses the pair of a closed one whose handle is dropped later, the live connection's entry is deleted and its segments are answered with RST")
+    # ... and the newer socket must actually take the entry over: insert_connection overwrites (the converse of cleaning by owner)
+    ic = ctx.w.bodies.get("turmoil_net::kernel::socket::SocketTable::insert_connection")
+    if ic:
+        puts = [t for bb, t in ic.calls(re.compile(r"(HashMap|IndexMap|BTreeMap)::insert$")) if t["args"] and _on_field(ic, t["args"][0], idx["connections"])]
+        lazy = [t for fb in ctx.w.family(ic.id) for bb, t in fb.calls(re.compile(r"::(entry|or_insert|or_insert_with|try_insert)$"))]
+        ok = bool(puts) and not lazy
+        ctx.inst(R, "insert_connection:replaces", ok, (lazy[0]["s"] if lazy else ic.span), "a new connection takes over the index entry of its 4-tuple" if ok else
+                 "SocketTable::insert_connection keeps an existing index entry: when a SYN reuses the pair of a connection that is Closed but whose handle is still held, the index "
+                 "keeps pointing at the dead socket - connect() returns Ok, the handshake ACK is swallowed and accept() never hands the connection out")
+    elif ctx.strict:
+        ctx.bad(R, "anchor-missing:insert_connection", "", "SocketTable::insert_connection not found")
     for b in sorted(ctx.w.bodies.values(), key=lambda b: b.id):
         if b.crate != "turmoil_net":
             continue
@@ -564,6 +575,8 @@ def r12(ctx):
 
 def run(ctx):
     from . import C17
+    from . import C06
+    C06.r13(ctx)   # a retransmitted SYN / SYN-ACK is the segment that was sent: same sequence number (a handshake that ends one off leaks FIN_WAIT2 entries)
     C17.r4(ctx)   # one connect, one server-side socket: a segment of a live connection never reaches the listener (a retransmitted SYN must not fork a second child)
     r12(ctx)
     r11(ctx)
